@@ -8,7 +8,8 @@ From MQ Require Import Base.Prelude Packet.Prim Packet.Props Generated.ObservedP
    Method is mandatory, so its cells carry one *)
 Definition base_loc (loc : N) : N := loc mod 100.
 Definition cell_ids (loc id count : N) : list N :=
-  (if (id =? 22) || ((loc =? 115) && negb (id =? 21)) then [21] else []) ++ repeat id (N.to_nat count).
+  (if (id =? 22) || ((loc =? 115) && negb (id =? 21)) then [21] else []) ++ repeat id (N.to_nat (N.min count 2)).
+(* count 3 = twice, the two occurrences carrying DIFFERENT values *)
 
 (* what the specification says about the cell *)
 Definition cell_expected (loc id count : N) : bool :=
@@ -21,7 +22,7 @@ Definition prop_cell_ok (c : N * N * N * bool * bool) : bool :=
   let '(loc, id, count, b, p) := c in Bool.eqb b (cell_expected loc id count) && Bool.eqb p (cell_expected loc id count).
 
 Definition props_domain : list (N * N * N) :=
-  flat_map (fun loc => flat_map (fun id => [(loc, id, 1); (loc, id, 2)]) ALL_PROP_IDS) ALL_CELL_LOCS.
+  flat_map (fun loc => flat_map (fun id => [(loc, id, 1); (loc, id, 2); (loc, id, 3)]) ALL_PROP_IDS) ALL_CELL_LOCS.
 Definition prop_cell_key (c : N * N * N * bool * bool) : N * N * N := let '(l, i, n, _, _) := c in (l, i, n).
 Definition key3_eqb (a b : N * N * N) : bool :=
   let '(a1, a2, a3) := a in let '(b1, b2, b3) := b in (a1 =? b1) && (a2 =? b2) && (a3 =? b3).
